@@ -189,12 +189,36 @@ fn gen_lit(r: &mut Rng) -> Lit {
         1 => Lit::Str((*r.pick(&["a", "b", "", "x y", "é"])).to_string()),
         2 => Lit::Bool(r.chance(1, 2)),
         3 => Lit::Null,
-        4 => Lit::List((0..r.below(3)).map(|_| Lit::Int(r.below(3) as u32)).collect()),
+        4 => Lit::List((0..r.below(4)).map(|_| Lit::Int(r.below(3) as u32)).collect()),
         _ => Lit::Int(7),
     }
 }
 
 fn different(r: &mut Rng, l: &Lit) -> Lit {
+    // half of the time a *near miss*: the same elements in another order or another kind of
+    // collection, the same text as another type, a trailing blank
+    if r.chance(1, 2) {
+        let near = match l {
+            Lit::List(v) if v.len() >= 2 => {
+                let mut w = v.clone();
+                w.reverse();
+                Some(Lit::List(w))
+            }
+            Lit::List(v) if v.len() == 1 => Some(Lit::Set(v.clone())),
+            Lit::Set(v) if v.len() == 1 => Some(Lit::List(v.clone())),
+            Lit::Int(n) => Some(Lit::Str(n.to_string())),
+            Lit::Str(t) if t.is_empty() => Some(Lit::Null),
+            Lit::Str(t) => Some(Lit::Str(format!("{} ", t))),
+            Lit::Null => Some(Lit::Bool(false)),
+            Lit::Bool(b) => Some(Lit::Str(if *b { "#true" } else { "#false" }.to_string())),
+            _ => None,
+        };
+        if let Some(n) = near {
+            if &n != l {
+                return n;
+            }
+        }
+    }
     loop {
         let c = gen_lit(r);
         if &c != l && c != Lit::Cap {
